@@ -1067,6 +1067,22 @@ gtwin('g-refine-options-local', P, 'Process.DoLocalRefinement',
       "        nelder_mead = scipy.optimize.minimize(self.problemCalculate, x0=startPoint, method='Nelder-Mead',\n                                              options={'maxiter': self.localMethodIterationCount}, bounds=bounds)",
       "        opts = {'maxiter': self.localMethodIterationCount}\n"
       "        nelder_mead = scipy.optimize.minimize(self.problemCalculate, x0=startPoint, method='Nelder-Mead',\n                                              options=opts, bounds=bounds)")
+gtwin('g-density-local-alias', EV, 'Evolvent.__GetYonX', '        for j in range(0, self.evolventDensity):',
+      '        levels = self.evolventDensity\n        for j in range(0, levels):')
+gtwin('g-density-local-alias-inverse', EV, 'Evolvent.__GetXonY', '        for j in range(0, self.evolventDensity):',
+      '        levels = self.evolventDensity\n        for j in range(levels):')
+gtwin('g-batch-local-alias', P, 'Process.DoGlobalIteration', '        for _ in range(number):',
+      '        iterations = number\n        for _ in range(iterations):')
+gtwin('g-stop-bound-method-alias', P, 'Process.Solve', '            while not self.method.CheckStopCondition():',
+      '            shouldStop = self.method.CheckStopCondition\n            while not shouldStop():')
+gtwin('g-method-local-alias-in-driver', P, 'Process.DoGlobalIteration', '        savedNewPoints = []\n',
+      '        savedNewPoints = []\n        method = self.method\n',
+      also=[(P, 'Process.DoGlobalIteration', '                newpoint, oldpoint = self.method.CalculateIterationPoint()',
+             '                newpoint, oldpoint = method.CalculateIterationPoint()')])
+gtwin('g-dimension-local-in-newpoint', M, 'Method.CalculateNextPointCoordinate',
+      'pow(abs(dif) / self.M[v], self.task.problem.numberOfFloatVariables)',
+      'pow(abs(dif) / self.M[v], N)',
+      also=[(M, 'Method.CalculateNextPointCoordinate', '        if idl == idr:', '        N = self.task.problem.numberOfFloatVariables\n        if idl == idr:')])
 twin('c03-while-traversal', 'C03', SD, 'SearchData.RefillQueue',
      '        for itr in self:\n            self._RGlobalQueue.Insert(itr.globalR, itr)',
      '        itr = self.GetLastItem()\n        while itr is not None:\n            itr = itr.GetLeft()\n        for itr in self:\n            self._RGlobalQueue.Insert(itr.globalR, itr)',
